@@ -3,6 +3,7 @@ package driver
 import (
 	"context"
 	"errors"
+	"fmt"
 	"sync"
 
 	"github.com/avos-io/goat"
@@ -59,6 +60,9 @@ func (p *pipe) Write(ctx context.Context, r *goat.Rpc) error {
 			if p.wEv != "" {
 				e := ev("WFail")
 				e.Conn, e.K = p.conn, p.wEv
+				if r.GetReset_() != nil { // the refused envelope is a reset: its sender has made its one attempt
+					e.X, e.Msg = "rst", fmt.Sprintf("%d", r.GetId())
+				}
 				tr.emit(e)
 			}
 			p.mu.Unlock()
@@ -69,6 +73,9 @@ func (p *pipe) Write(ctx context.Context, r *goat.Rpc) error {
 			if p.wEv != "" {
 				e := ev("WFail")
 				e.Conn, e.K = p.conn, p.wEv
+				if r.GetReset_() != nil { // the refused envelope is a reset: its sender has made its one attempt
+					e.X, e.Msg = "rst", fmt.Sprintf("%d", r.GetId())
+				}
 				tr.emit(e)
 			}
 			p.mu.Unlock()
